@@ -48,15 +48,44 @@ class Net(object):
     sw.link = None
     if connect:
       self.connect(dpid)
+    else:
+      self.dead.add(dpid)
     return sw
 
   def connect(self, dpid):
+    """(Re)connect a switch: a fresh control channel for the same datapath (its flow table and port
+    configuration survive, as on a real switch); whatever it wrote while disconnected is lost."""
+    from . import world as W
+    import pox.datapaths.switch as SW
     sw = self.world.switches[dpid]
+    if sw.link is not None and sw.link.alive:
+      return sw.link
+    sw.sock = W.FakeSock("sw%x" % dpid)
+    sw.worker = W._make_worker(sw.sock)
+    sw.conn = SW.OFConnection(sw.worker)
+    sw.sw.set_connection(sw.conn)
     link = self.world.attach(sw)
     sw.link = link
+    self.dead.discard(dpid)
     if not link.handshake():
       raise HarnessError("switch %x did not come up" % dpid)
     return link
+
+  def disconnect(self, dpid, kill_dataplane=True):
+    """The control connection closes (the controller's read loop sees EOF and closes its side)."""
+    sw = self.world.switches[dpid]
+    link = sw.link
+    if link is None or not link.alive:
+      return False
+    link.alive = False
+    if link in self.world.links:
+      self.world.links.remove(link)
+    sw.link = None
+    if kill_dataplane:
+      self.dead.add(dpid)
+    link.con.close()
+    self.world.settle()
+    return True
 
   def cable(self, a, ap, b, bp, both=True):
     self.cables[(a, ap)] = [b, bp, True]
